@@ -2,7 +2,7 @@
 
 # T1: which regenerated facts each property's argument rests on (see extract/main.go, lean/JivaVerif/Tie.lean)
 FACTS_FOR = {
-    "C01": ["ioRefusedWriteAt", "ioRefusedReadAt", "lookupBody", "removeIndexShifts", "removeIndexBody"],
+    "C01": ["widenForWO", "writeWidensForWO", "ioRefusedWriteAt", "ioRefusedReadAt", "lookupBody", "removeIndexShifts", "removeIndexBody"],
     "C02": ["locks_WriteAt", "locks_Sync", "locks_Unmap", "mwWriteOk", "mwSyncOk", "mwUnmapOk", "mwWriteReturns", "handleErrorNoLock", "errorAttributionWriteAt",
             "errorAttributionSync", "errorAttributionUnmap", "buildReadWriters", "removeBackendTail", "removeReplicaTail"],
     "C03": ["locks_WriteAt", "locks_Sync", "locks_Unmap", "locks_SetReplicaMode", "locks_RemoveReplica", "locks_monitoring", "volStatusRW", "volStatusCounts", "setModeReevaluates", "removeReplicaTail"],
@@ -90,7 +90,9 @@ PROPS = {
     "C18": {"lean": CTLMOD, "prefixes": ["c18_", "c07_single_wo", "ctl_reachable_inv", "run_rf", "step_rf"],
             "runs": [ctl("membership", 480, 30, 9000, 40, 17)], "modelled": CTL},
     "C01": {"lean": ["JivaVerif.Properties.C01"],
-            "runs": [rep("io", 480, 30, 8000, 45), rep("mix", 320, 30, 6000, 45, 1)], "modelled": FS},
+            "runs": [rep("io", 480, 30, 8000, 45), rep("mix", 320, 30, 6000, 45, 1),
+                     dict(rep("rebuild", 96, 30, 800, 40, 58), **{"thorough": {"n": 800, "len": 40, "timeout": 6000}})],
+            "modelled": FS + ["the path through the controller (range check, the widening of sub-block writes while a WO replica is attached) is exercised by the rebuild profile: real controller, real remote backend, three real replicas; every write is read back through the controller and from each replica"]},
     "C06": {"lean": ["JivaVerif.Properties.C06"],
             "runs": [rep("snapshots", 640, 32, 10000, 45, 2)], "modelled": FS},
     "C07": {"lean": ["JivaVerif.Properties.C07", "JivaVerif.Properties.Controller"],
@@ -107,7 +109,7 @@ PROPS = {
             "modelled": FS + [
                 "harness (clone profile): after a generated history on the source replica a replica of a NEW volume is started as a clone of one of its snapshots with the real code end to end: real clone replica behind REST/RPC/sync-agent endpoints, real controller of the new volume (real remote backend) whose Start opens the replica and polls the clone status, app.CloneReplica -> sync.Task.CloneReplica with the real sync agents and ssync as child processes (re-exec of the harness binary, as main.go does); the source volume's controller is a stub answering GET /v1/replicas; the lines of app.startReplica around the call (status inProgress before, error on failure) are repeated by the harness and pinned by the T1 fact cloneStatusOrder",
                 "observed: final clone status, how the new controller lists the replica, that it never lists it RW before the status says completed (sampled every 2 ms), chain, revision counter, and the image read through the new controller; compared with the model (image = view of the snapshot, counter = the one recorded in the snapshot's metadata, which the model now tracks through snapshot / delete / revert / reopen)",
-                "modelled: the polling loop of addReplicaDuringStartNoLock by the status it ends on (T1 fact cloneStatusLoop pins the loop conditions); interruptions of source or clone during the copy are not injected (sync.CloneReplica retries the transfer forever; only the 'snapshot not found' failure is exercised)"]},
+                "modelled: the polling loop of addReplicaDuringStartNoLock by the status it ends on (T1 fact cloneStatusLoop pins the loop conditions); two failures are exercised: 'snapshot not found', and a transfer cut in the middle (request 'clone <snap> fault': the sender of the first snapshot data file, the real ssync run as a child, delivers only the first half and exits with an error; the model answers that such a clone fails: status error, never listed RW); a crash of the source or clone process during the copy is not injected"]},
     "C10": {"lean": ["JivaVerif.Properties.C10"],
             "runs": [rep("counter", 320, 30, 5000, 45, 3)], "modelled": FS + [
                 "modelled: the counter file is one 4 KiB O_DIRECT block rewritten by a single pwrite under revisionLock; concurrent writers are one atomic step each"]},
